@@ -58,7 +58,7 @@ def run(ctx):
         speccode.negative_control(ctx)
         if not quick:
             speccode.explore(ctx, focus="all", emit=False)      # the whole thorough universe, design level only
-        uprogs, ukw, sessions, _ = speccode.explore(ctx, focus="all", part=speccode.part_of(ctx, 8 if quick else 16))
+        uprogs, ukw, sessions, _ = speccode.explore(ctx, focus="all", part=speccode.part_of(ctx, 24 if quick else 32))
         def on(camp, prog, con, s, idx):
             if not idx["build"]:
                 return
